@@ -156,6 +156,7 @@ def dense_deal(rng, nboard=5, sizes=(4, 2)):
 
 class C06(Prop):
     pid = "C06"
+    force_level = "other"   # the optimised-evaluator half (fast = brute force) is not proved yet: see DESIGN.md
     title = "Omaha (fast and brute force) and Hold'em strength = best legal five-card hand (2+3 / any 5 of 7)"
     rule = ("structured deals from dense sub-decks (paired/tripled boards, flush boards, straight windows across the ace, "
             "quads), board 5 + Omaha hand 4 + Hold'em hand 2 pairwise disjoint; thorough: 16 shards x 4 min of the same plus "
